@@ -2883,8 +2883,15 @@ class Data(Container, NetCDFHDF5, Files, core.Data):
             )  # pragma: no cover
             return False
 
-        # Check that each instance has the same data type
-        if not ignore_data_type and self.dtype != other.dtype:
+        # Check that each instance has the same data type. String data
+        # types that differ only in their lengths are the same type
+        # (the length is that of the longest string that happens to
+        # be in memory, so it changes when file data are subspaced).
+        if (
+            not ignore_data_type
+            and self.dtype != other.dtype
+            and not (self.dtype.kind in "SU" and other.dtype.kind in "SU")
+        ):
             logger.info(
                 f"{self.__class__.__name__}: Different data types: "
                 f"{self.dtype} != {other.dtype}"
